@@ -42,3 +42,63 @@ pub fn exp(e: &Exp) -> String {
         Exp::UnOp(op, e) => format!("(un {} {})", unop(*op), exp(e)),
     }
 }
+
+// ---------------------------------------------------------------- Model / LinearModel
+use indexmap::IndexMap;
+use rooc::model_transformer::{Constraint, DomainVariable, Model};
+use rooc::{Comparison, LinearModel, OptimizationType, VariableType};
+
+pub fn cmp(c: Comparison) -> &'static str {
+    match c {
+        Comparison::LessOrEqual => "le", Comparison::GreaterOrEqual => "ge", Comparison::Equal => "eq",
+        Comparison::Less => "lt", Comparison::Greater => "gt",
+    }
+}
+pub fn opt_type(o: &OptimizationType) -> &'static str {
+    match o { OptimizationType::Min => "min", OptimizationType::Max => "max", OptimizationType::Satisfy => "solve" }
+}
+pub fn var_type(t: &VariableType) -> String {
+    match t {
+        VariableType::Boolean => "bool".into(),
+        VariableType::NonNegativeReal(a, b) => format!("(nnreal {} {})", num(*a), num(*b)),
+        VariableType::Real(a, b) => format!("(real {} {})", num(*a), num(*b)),
+        VariableType::IntegerRange(a, b) => format!("(int {} {})", a, b),
+    }
+}
+pub fn domain(d: &IndexMap<String, DomainVariable>) -> String {
+    let mut s = String::from("(domain");
+    for (name, v) in d {
+        s.push_str(&format!(" ({} {} {})", q(name), var_type(v.get_type()), v.usage_count()));
+    }
+    s.push(')');
+    s
+}
+pub fn constraint(c: &Constraint) -> String {
+    if c.is_logic_assertion() {
+        format!("(assert {} {})", q(c.name()), exp(c.lhs()))
+    } else {
+        format!("(c {} {} {} {})", q(c.name()), cmp(c.constraint_type()), exp(c.lhs()), exp(c.rhs()))
+    }
+}
+pub fn model(m: &Model) -> String {
+    let mut s = format!("(model ({} {}) (constraints", opt_type(&m.objective().objective_type), exp(&m.objective().rhs));
+    for c in m.constraints() { s.push(' '); s.push_str(&constraint(c)); }
+    s.push_str(") ");
+    s.push_str(&domain(m.domain()));
+    s.push(')');
+    s
+}
+pub fn nums(v: &[f64]) -> String { v.iter().map(|x| num(*x)).collect::<Vec<_>>().join(" ") }
+pub fn lin_model(m: &LinearModel) -> String {
+    let mut s = format!("(lin {} (obj {}) {} (vars", opt_type(m.optimization_type()), nums(m.objective()), num(m.objective_offset()));
+    if m.objective().is_empty() { s = s.replace("(obj )", "(obj)"); }
+    for v in m.variables() { s.push(' '); s.push_str(&q(v)); }
+    s.push_str(") ");
+    s.push_str(&domain(m.domain()));
+    s.push_str(" (rows");
+    for r in m.constraints() {
+        s.push_str(&format!(" (row {} {} ({}) {})", q(&r.name()), cmp(*r.constraint_type()), nums(r.coefficients()), num(r.rhs())));
+    }
+    s.push_str("))");
+    s
+}
